@@ -302,6 +302,114 @@ def rule_G_ZERO(ctx, repo):
                      'treated as "ignore nothing", so calls that differ only in the first argument are evaluated separately' % (qual, name), '%s:%d' % (mm.rel, h.lineno))
 
 
+CARRIERS = {'_inspect': ('_keygen', 'rounded_args', 'func', 'key'), 'keymaps': ('__call__', 'encode', 'encrypt'),
+            'rounding': ('deep_round', 'simple_round', 'shallow_round', 'func', 'rounded_args'),
+            '_cache': ('wrapper', 'key', 'lookup', 'rounded_args'), 'safe': ('wrapper', 'key', 'lookup', 'rounded_args')}
+
+
+def rule_K_CAPTURE(ctx, repo):
+    """K-CAPTURE (the user's keywords travel in **kwds): the functions that pass the decorated function's own arguments along - the wrappers, key / lookup,
+    the rounders, _keygen, keymap.__call__ / encode / encrypt - declare no named parameter besides self / func / ignored.  A named (e.g. keyword-only)
+    parameter would capture a user keyword of the same name: `_keygen(func, ignored, *args, safe=True, **kwds)` swallows the argument `safe=` of a
+    cached function, which then never reaches the key."""
+    n = 0
+    for modname, names in CARRIERS.items():
+        m = repo.mod(modname)
+        for f in ast.walk(m.tree):
+            if not isinstance(f, ast.FunctionDef) or f.name not in names or not (f.args.vararg and f.args.kwarg):
+                continue
+            n += 1
+            extra = [x.arg for x in f.args.posonlyargs + f.args.args if x.arg not in ('self', 'func', 'ignored')] + [x.arg for x in f.args.kwonlyargs]
+            ctx.ob('K-CAPTURE', None, not extra)
+            if extra:
+                ctx.fail('K-CAPTURE', '%s::%s' % (m.rel, f.name), 'named parameter %s captures a user keyword' % ', '.join(extra),
+                         '%s(%s) forwards the decorated function\'s arguments in *%s / **%s but also declares the named parameter(s) %s: a keyword argument of the cached '
+                         'function with that name is bound to the parameter instead of travelling on, so it never reaches the key (calls differing in it share an entry) '
+                         'or changes how the key is computed' % (f.name, unparse(f.args)[:60], f.args.vararg.arg, f.args.kwarg.arg, ', '.join(extra)),
+                         '%s:%d' % (m.rel, f.lineno))
+    if n < 20:
+        raise AnalysisError('instance count below confirmed minimum: %d argument-carrying functions (< 20)' % n)
+    ctx.ob('K-CAPTURE', 'argument-carrying functions examined', True, n=n)
+
+
+def rule_V_TRYRESET(ctx, repo):
+    """V-TRYRESET (probing by attribute access is all-or-nothing): signature() and validate() find out whether the callable is a functools.partial by
+    reading func.args, func.keywords, func.func inside one try and falling back on AttributeError.  When a later read fails, what the earlier reads
+    assigned must not survive into the fall-back path: every name assigned before the last probing read is re-initialised on that path (in the handler,
+    or after the try under a flag that only the completed try body sets).  Otherwise an object that merely has an `.args` attribute (and no `.func`)
+    is treated as a partial with those fixed arguments."""
+    m = repo.mod('_inspect')
+    n = 0
+    for need in ('signature', 'validate'):
+        if need not in m.functions:
+            raise AnalysisError('anchor vanished: klepto/_inspect.py::%s' % need)
+    for fname, fi in sorted(m.functions.items()):
+        if not fi.node.args.args:
+            continue
+        obj = fi.node.args.args[0].arg
+        body_of = {}
+        for node in ast.walk(fi.node):
+            for fld in ('body', 'orelse', 'finalbody'):
+                blk = getattr(node, fld, None)
+                if isinstance(blk, list):
+                    for st in blk:
+                        body_of[st] = (blk, node)
+        for t in ast.walk(fi.node):
+            if not isinstance(t, ast.Try):
+                continue
+            if not any(h.type is None or 'AttributeError' in unparse(h.type) or unparse(h.type) in ('Exception', 'BaseException') for h in t.handlers):
+                continue
+
+            def probes(st):
+                return any(isinstance(x, ast.Attribute) and isinstance(x.value, ast.Name) and x.value.id == obj and isinstance(x.ctx, ast.Load) for x in ast.walk(st))
+            idx = [i for i, st in enumerate(t.body) if probes(st)]
+            if len(idx) < 2:
+                continue
+            n += 1
+            last = idx[-1]
+            early = set()
+            for st in t.body[:last]:
+                for x in ast.walk(st):
+                    if isinstance(x, ast.Name) and isinstance(x.ctx, ast.Store):
+                        early.add(x.id)
+            # flags: names assigned a true constant after the last probe, in the try body (or its else clause)
+            flags = set()
+            for st in t.body[last:] + t.orelse:
+                if isinstance(st, ast.Assign) and isinstance(st.value, ast.Constant) and st.value.value is True:
+                    flags |= set(x.id for x in st.targets if isinstance(x, ast.Name))
+            reset = set()
+            for h in t.handlers:
+                for st in h.body:
+                    if isinstance(st, ast.Assign):
+                        reset |= set(x.id for tt in st.targets for x in ast.walk(tt) if isinstance(x, ast.Name))
+            blk, parent = body_of.get(t, ([], None))
+            after = []
+            cur = t
+            while cur in body_of:
+                b, par = body_of[cur]
+                after.extend(b[b.index(cur) + 1:])
+                cur = par
+            for st in after:
+                if isinstance(st, ast.If) and isinstance(st.test, ast.UnaryOp) and isinstance(st.test.op, ast.Not) and isinstance(st.test.operand, ast.Name) \
+                        and st.test.operand.id in flags:
+                    for s2 in st.body:
+                        if isinstance(s2, ast.Assign):
+                            reset |= set(x.id for tt in s2.targets for x in ast.walk(tt) if isinstance(x, ast.Name))
+            # the try's own else-clause commits (names assigned only there are not early)
+            used_later = set(x.id for st in after for x in ast.walk(st) if isinstance(x, ast.Name) and isinstance(x.ctx, ast.Load))
+            leak = sorted((early & used_later) - reset - set([obj]))
+            ctx.ob('V-TRYRESET', '%s: names assigned while probing are re-initialised on the fall-back path' % fname, not leak)
+            if leak:
+                ctx.fail('V-TRYRESET', fi.qual, 'probe leaks %s' % ', '.join(leak),
+                         '%s() assigns %s from attributes of `%s` before a later attribute read in the same try can still fail: on the AttributeError path those '
+                         'assignments stay, so a callable that merely has such attributes (an instance with an `.args` but no `.func`) is inspected as if it were a partial '
+                         'that fixed those arguments - isvalid() then rejects valid calls and accepts invalid ones, and keys are built with phantom fixed arguments'
+                         % (fname, ', '.join(leak), obj), '%s:%d' % (m.rel, t.lineno))
+    ctx.ob('V-TRYRESET', 'attribute-probing try blocks in klepto/_inspect.py examined', True, n=max(1, n))
+    if n == 0:
+        ctx.note('V-TRYRESET: no try block with two or more probing reads of its first parameter in klepto/_inspect.py (nothing to decide)')
+
+
 def _length_changing(rhs, X):
     """does the new value of X (an expression over the old X) have another length: a slice of X, X + ..., a filtered comprehension over X"""
     for c in ast.walk(rhs):
@@ -433,6 +541,18 @@ def rule_SIG(ctx, repo):
                              'signature() asks inspect.signature() for the parameters without follow_wrapped=False: for a function decorated with functools.wraps it reports '
                              'the parameters of the wrapped function, while binding func(*args, **kwds) is decided by the wrapper\'s own parameters - validate/isvalid '
                              'and the key are computed for a different signature', '%s:%d' % (m.rel, node.lineno))
+    # ... and it reports positional-only parameters under their own kind: they are bound by position like the others
+    kinds = set(x.attr for x in ast.walk(sig.node) if isinstance(x, ast.Attribute) and x.attr in (
+        'POSITIONAL_ONLY', 'POSITIONAL_OR_KEYWORD', 'VAR_POSITIONAL', 'VAR_KEYWORD', 'KEYWORD_ONLY'))
+    if kinds:
+        ok = not ('POSITIONAL_OR_KEYWORD' in kinds and 'POSITIONAL_ONLY' not in kinds)
+        ctx.ob('V-POS', 'parameters selected by kind include the positional-only ones', ok)
+        if not ok:
+            line = min(x.lineno for x in ast.walk(sig.node) if isinstance(x, ast.Attribute) and x.attr == 'POSITIONAL_OR_KEYWORD')
+            ctx.fail('V-POS', sig.qual, 'positional-only parameters dropped',
+                     'signature() collects the names that positional arguments are bound to by testing Parameter.kind against POSITIONAL_OR_KEYWORD only: the parameters '
+                     'before a `/` (POSITIONAL_ONLY) drop out of the list, so every positional value is filed one slot to the right - f(1, 2) and f(1, b=2) on '
+                     'def f(a, /, b, c=3) get different keys, and validate miscounts the arguments', '%s:%d' % (m.rel, line))
     eng = DepEngine(m, field_roots=set(FIELD_ROOTS) | set([fn, fn + '.func']), source_calls=SOURCE_CALLS)
     eng.run(sig.node, sig.qual, {})
     ctx.analysed(sig.qual)
@@ -484,7 +604,9 @@ def rule_SIG(ctx, repo):
     rets = [s for s in eng.sites if s.kind == 'return' and s.depth == 0 and s.val is not None and s.val.elts]
     full = [s for s in rets if len(s.val.elts) >= 2 and 'SPEC.args' in s.val.elts[0].v]
     if not full:
-        raise AnalysisError('anchor changed: no return of signature() carries argspec.args in its first element')
+        # the result is assembled in a way the provenance analysis does not follow element-wise (e.g. conditional `result += (...)`): V-POS has nothing to
+        # judge; the rules over _keygen / validate still anchor on signature()'s result themselves
+        ctx.note('V-POS not decided: no return of signature() is an element-wise tuple carrying argspec.args')
     for s in full:
         bad = sorted(L for L in s.val.elts[0].v if L in NOT_POSITIONAL)
         ctx.ob('V-POS', '%s:%d names element' % (m.rel, s.lineno), not bad)
